@@ -5,7 +5,7 @@ import PtnModel.Proofs.CompressBasic
 For a successful `splitMatrixSvd dsvd dnorm dargsort M q0 q1 tol = .ok (u, s, v, q)` under the kernel contracts:
 
 * `frobM_eq_spectrum`   : `‖M‖_F² = Σ_p σ_p²` over the concatenated spectrum;
-* `shared_of_frob_pos`  : a non-zero matrix has a shared charge;
+* `shared_of_frob_pos`  : a non-zero matrix has a shared charge; `anyNZ_of_frob_pos`: it has a non-zero entry;
 * `split_weight`        : `Σ_t s_t² ≤ ‖M‖_F²` and `(1 - tol) ‖M‖_F² ≤ Σ_t s_t²`; `0 < len s` for `tol < 1`, `M ≠ 0`.
 -/
 set_option linter.unusedSectionVars false
@@ -30,22 +30,19 @@ theorem shared_of_frob_pos (H : QRInput M q0 q1) (hpos : 0 < frobM M) : intersec
   obtain ⟨i, j, hi, hj, hne⟩ := exists_ne_of_frobM_pos hpos
   exact hne (all_zero_of_disjoint H he i j hi hj)
 
+/-- a matrix with positive Frobenius norm has a non-zero entry -/
+theorem anyNZ_of_frob_pos (hpos : 0 < frobM M) : AnyNZ M := exists_ne_of_frobM_pos hpos
+
 /-- `‖M‖_F² = Σ_p σ_p²` (sum over the concatenated spectrum of the blocks) -/
 theorem frobM_eq_spectrum (hc : C12.SVDContractOn (ιR 𝕜) dsvd M q0 q1) (H : QRInput M q0 q1) :
     frobM M = sqSum (spectrum dsvd M q0 q1) := by
-  by_cases he : intersect1d q0 q1 = []
-  · rw [spectrum_disjoint dsvd M q0 q1 he]
-    have hz := all_zero_of_disjoint H he
-    unfold frobM sqSum
-    simp only [List.map_nil, List.sum_nil]
-    refine sum_eq_zero fun i hi => sum_eq_zero fun j hj => ?_
-    rw [hz i j (mem_range.1 hi) (mem_range.1 hj)]; simp
+  by_cases hnz : AnyNZ M
   · obtain ⟨u, s, v, q, hrun⟩ := C12.split_ok (fun _ => (0 : ℝ)) (fun _ => []) 0 hc.shape H.hq0 H.hq1 H.hm H.hn H.hsp
     have hd := C12.split_dims (fun _ => (0 : ℝ)) (fun _ => []) 0 hc.shape H.hq0 H.hq1 H.hm H.hn H.hsp hrun
     have hk : retainedBondIndices (fun _ => (0 : ℝ)) (fun _ => []) (spectrum dsvd M q0 q1) 0 = [] :=
       C12.rule_zero _ _ _ _ rfl
     have hs0 : u.n = 0 := by
-      rw [hd.2.1, (hd.2.2.2.2.2.2 he).1, hk]; rfl
+      rw [hd.2.1, hd.2.2.2.2.2.2.1 hnz, hk]; rfl
     have herr := C12.split_error_identity (fun _ => (0 : ℝ)) (fun _ => []) 0 ιR_star hc H.hq0 H.hq1 H.hm H.hn H.hsp hrun
     have ht : ∀ i j, tripleF (ιR 𝕜) u s v i j = 0 := by
       intro i j; unfold tripleF; rw [hs0]; simp
@@ -54,6 +51,19 @@ theorem frobM_eq_spectrum (hc : C12.SVDContractOn (ιR 𝕜) dsvd M q0 q1) (H : 
     rw [frobM_cast, herr, sqSum, ← sum_range_getD, RCLike.ofReal_sum]
     refine sum_congr rfl fun p _ => ?_
     rw [RCLike.ofReal_mul]
+  · have hz := (not_anyNZ_iff M).1 hnz
+    have hL : frobM M = 0 := by
+      unfold frobM
+      refine sum_eq_zero fun i hi => sum_eq_zero fun j hj => ?_
+      rw [hz i j (mem_range.1 hi) (mem_range.1 hj)]; simp
+    rw [hL, sqSum, ← sum_range_getD]
+    symm
+    refine sum_eq_zero fun p hp => ?_
+    have h0 := spectrum_zero_of_zero (ιR 𝕜) hc.shape hc.product hc.isoU hc.isoV H hnz (mem_range.1 hp)
+    have : (spectrum dsvd M q0 q1).getD p 0 = 0 := by
+      apply RCLike.ofReal_injective (K := 𝕜)
+      rw [RCLike.ofReal_zero]; exact h0
+    rw [this, mul_zero]
 
 /-- the relative weight of a strictly increasing list of valid indices is at most the total weight -/
 theorem weightOf_le_total (spec : List ℝ) (w : ℝ) {l : List Nat} (hp : l.Pairwise (· < ·))
@@ -90,9 +100,9 @@ theorem split_weight (hc : C12.SVDContractOn (ιR 𝕜) dsvd M q0 q1) (H : QRInp
     {u v : Mat 𝕜} {s : List ℝ} {q : List Int}
     (hrun : splitMatrixSvd dsvd dnorm dargsort M q0 q1 tol = .ok (u, s, v, q)) :
     sqSum s ≤ frobM M ∧ (1 - tol) * frobM M ≤ sqSum s := by
-  have hne := shared_of_frob_pos H hpos
+  have hnz := anyNZ_of_frob_pos hpos
   have hF := frobM_eq_spectrum hc H
-  obtain ⟨hs, -⟩ := C12.split_values dnorm dargsort tol hc.shape H.hq0 H.hq1 H.hm H.hn H.hsp hrun hne
+  obtain ⟨hs, -⟩ := C12.split_values dnorm dargsort tol hc.shape H.hq0 H.hq1 H.hm H.hn H.hsp hrun hnz
   have hw2 : dnorm (spectrum dsvd M q0 q1) * dnorm (spectrum dsvd M q0 q1) = frobM M := by
     rw [hnorm.2, hF]; rfl
   have hw : dnorm (spectrum dsvd M q0 q1) ≠ 0 := by
@@ -115,44 +125,24 @@ theorem split_weight (hc : C12.SVDContractOn (ιR 𝕜) dsvd M q0 q1) (H : QRInp
 section proj
 variable {ι : ℝ →+* 𝕜}
 
-/-- the untruncated left factor has orthonormal columns -/
-theorem fullU_iso (hshape : SvdShape dsvd M q0 q1) (hisoU : SvdIsoU dsvd M q0 q1) (H : QRInput M q0 q1)
-    {p p' : Nat} (hp : p < (spectrum dsvd M q0 q1).length) (hp' : p' < (spectrum dsvd M q0 q1).length) :
-    ∑ i ∈ range M.m, star (fullU dsvd M q0 q1 i p) * fullU dsvd M q0 q1 i p' = if p = p' then 1 else 0 := by
-  have hI := svdLoopState_inv hshape H.hq0 H.hq1
-  have hJU := svdLoopState_isoU hshape hisoU H.hq0 H.hq1
-  obtain ⟨-, -, sm, sn, -⟩ := srt_spec M q0 q1 H.hq0 H.hq1
-  have hp0 := stableArgsort_permInv q0
-  rw [H.hq0] at hp0
-  have hD : (spectrum dsvd M q0 q1).length = (svdLoopState dsvd M q0 q1).D := hI.slen
-  rw [hD] at hp hp'
-  unfold fullU
-  rw [hp0.sum_comp (fun k => star ((svdLoopState dsvd M q0 q1).u.f k p) * (svdLoopState dsvd M q0 q1).u.f k p'), ← sm]
-  exact hJU p p' hp hp'
-
-/-- the untruncated right factor has orthonormal rows -/
-theorem fullV_iso (hshape : SvdShape dsvd M q0 q1) (hisoV : SvdIsoV dsvd M q0 q1) (H : QRInput M q0 q1)
-    {p p' : Nat} (hp : p < (spectrum dsvd M q0 q1).length) (hp' : p' < (spectrum dsvd M q0 q1).length) :
-    ∑ j ∈ range M.n, fullV dsvd M q0 q1 p j * star (fullV dsvd M q0 q1 p' j) = if p = p' then 1 else 0 := by
-  have hI := svdLoopState_inv hshape H.hq0 H.hq1
-  have hJV := svdLoopState_isoV hshape hisoV H.hq0 H.hq1
-  obtain ⟨-, -, sm, sn, -⟩ := srt_spec M q0 q1 H.hq0 H.hq1
-  have hp1 := stableArgsort_permInv q1
-  rw [H.hq1] at hp1
-  have hD : (spectrum dsvd M q0 q1).length = (svdLoopState dsvd M q0 q1).D := hI.slen
-  rw [hD] at hp hp'
-  unfold fullV
-  rw [hp1.sum_comp (fun k => (svdLoopState dsvd M q0 q1).v.f p k * star ((svdLoopState dsvd M q0 q1).v.f p' k)), ← sn]
-  exact hJV p p' hp hp'
-
-/-- `uᴴ M = diag(s) v` and `M vᴴ = u diag(s)` for the returned (truncated) factors -/
+/-- `uᴴ M = diag(s) v` and `M vᴴ = u diag(s)` for the returned (truncated) factors (both branches: for a zero
+matrix `s = [0]` and both sides vanish) -/
 theorem split_proj (hc : C12.SVDContractOn (ιR 𝕜) dsvd M q0 q1) (H : QRInput M q0 q1)
-    (hne : intersect1d q0 q1 ≠ []) {u v : Mat 𝕜} {s : List ℝ} {q : List Int}
+    {u v : Mat 𝕜} {s : List ℝ} {q : List Int}
     (hrun : splitMatrixSvd dsvd dnorm dargsort M q0 q1 tol = .ok (u, s, v, q)) {t : Nat} (ht : t < s.length) :
     (∀ j, j < M.n → ∑ i ∈ range M.m, star (u.f i t) * M.f i j = (s.getD t 0 : 𝕜) * v.f t j) ∧
     (∀ i, i < M.m → ∑ j ∈ range M.n, M.f i j * star (v.f t j) = u.f i t * (s.getD t 0 : 𝕜)) := by
-  rcases split_run_cases dnorm dargsort tol hc.shape H hrun with ⟨he, -⟩ | ⟨-, rfl, rfl, rfl, rfl⟩
-  · exact absurd he hne
+  rcases split_run_cases dnorm dargsort tol hc.shape H hrun with ⟨hz, rfl, rfl, rfl, rfl⟩ | ⟨-, rfl, rfl, rfl, rfl⟩
+  · have hM := (not_anyNZ_iff M).1 hz
+    have ht0 : t = 0 := by simpa using ht
+    subst ht0
+    constructor
+    · intro j hj
+      rw [sum_eq_zero fun i hi => by rw [hM i j (mem_range.1 hi) hj, mul_zero]]
+      simp
+    · intro i hi
+      rw [sum_eq_zero fun j hj => by rw [hM i j hi (mem_range.1 hj), zero_mul]]
+      simp
   · obtain ⟨U1, U2, U3⟩ := outU_spec dnorm dargsort tol (dsvd := dsvd) H.hq0 H.hq1
     obtain ⟨V1, V2, V3⟩ := outV_spec dnorm dargsort tol (dsvd := dsvd) H.hq0 H.hq1
     obtain ⟨kp, kb⟩ := keptIdx_valid dnorm dargsort tol hc.shape H
